@@ -232,7 +232,7 @@ func newestCreated(s *kmodel.Store, od string) (kmodel.Key, bool) {
 func Invariant(w *world.World) []world.Finding {
 	var out []world.Finding
 	seen := map[int64]string{}
-	for _, k := range osw.ObjectSetsOf(w.S, "d") {
+	for _, k := range osw.ObjectSetsOf(w.S, odName) {
 		c := w.S.Objs[k].Content
 		rev := osw.StatusRevision(c)
 		if rev == 0 {
@@ -272,16 +272,19 @@ type scenario struct {
 	Stale     int    `json:"staleLists"`
 	Clash     string `json:"clash"` // "", archived, different-spec, foreign
 	Pause     int    `json:"pauses"`
+	// LongName: the deployment's name is 63 characters long (the longest that works at all: it is
+	// stamped as a label value on its ObjectSets)
+	LongName bool `json:"longName"`
 }
 
 func (sc scenario) name() string {
-	return fmt.Sprintf("deployment edits=%d faults=%d stale=%d clash=%s pauses=%d", sc.Edits, sc.Faults, sc.Stale, sc.Clash, sc.Pause)
+	return fmt.Sprintf("deployment edits=%d faults=%d stale=%d clash=%s pauses=%d longName=%v", sc.Edits, sc.Faults, sc.Stale, sc.Clash, sc.Pause, sc.LongName)
 }
 
 func currentTemplate(w *world.World) string {
-	od := w.S.Objs[osw.ODKey("d")]
+	od := w.S.Objs[osw.ODKey(odName)]
 	for n, t := range templates {
-		probe := osw.NewOD("d", t, nil)
+		probe := osw.NewOD(odName, t, nil)
 		c, _, _ := kmodel.ToContent(probe, world.Scheme)
 		if osw.TemplateOf(c) == osw.TemplateOf(od.Content) {
 			return n
@@ -290,17 +293,29 @@ func currentTemplate(w *world.World) string {
 	return "?"
 }
 
+// odName is the name of the ObjectDeployment of the system being explored (set by run / replay
+// for the duration of one system; systems of one process run one after the other).
+var odName = "d"
+
+func (sc scenario) setName() {
+	odName = "d"
+	if sc.LongName {
+		odName = "d" + strings.Repeat("x", 62)
+	}
+}
+
 func system(sc scenario) *world.System {
+	sc.setName()
 	return &world.System{
 		Name: sc.name(),
 		Init: func() *world.World {
 			w := osw.NewWorld()
-			w.MustCreate(osw.NewOD("d", templates["T1"], nil))
+			w.MustCreate(osw.NewOD(odName, templates["T1"], nil))
 			w.MustCreate(world.NewObjectSet("x", nil, nil))
 			if sc.Clash != "" {
 				// find the name the first pass will use, then occupy it
 				probe := w.Clone()
-				p := probe.Reconcile(world.CtrlObjectDeployment, osw.NN("d"), nil)
+				p := probe.Reconcile(world.CtrlObjectDeployment, osw.NN(odName), nil)
 				name := ""
 				for _, r := range p.Reqs {
 					if r.Verb == "create" && r.Key.Kind == "ObjectSet" {
@@ -310,8 +325,8 @@ func system(sc scenario) *world.System {
 				if name == "" {
 					panic("c07: probe pass created nothing")
 				}
-				od := w.S.Objs[osw.ODKey("d")].Content
-				odID := world.IdentOf(osw.ODKey("d"), od)
+				od := w.S.Objs[osw.ODKey(odName)].Content
+				odID := world.IdentOf(osw.ODKey(odName), od)
 				tmpl := templates["T1"]
 				owner := odID
 				lifecycle := corev1alpha1.ObjectSetLifecycleStateActive
@@ -374,7 +389,7 @@ func system(sc scenario) *world.System {
 					n := n
 					evs = append(evs, world.Event{Name: "user:edit-template:" + n, Apply: func(w *world.World) *world.Pass {
 						w.Budget["edit"]--
-						osw.SetODTemplate(w, "d", templates[n])
+						osw.SetODTemplate(w, odName, templates[n])
 						// the staleness window modelled (and handled by the code) is a retry of the same
 						// create; a template edit inside the window is outside C07's quantifier (DESIGN.md N16)
 						for k := range w.Budget {
@@ -386,30 +401,30 @@ func system(sc scenario) *world.System {
 					}})
 				}
 			}
-			evs = append(evs, osw.FaultEvents(w, world.CtrlObjectDeployment, "d", []world.FaultKind{world.ErrBefore, world.LostResponse, world.Crash})...)
-			evs = append(evs, osw.ConflictEvents(w, world.CtrlObjectDeployment, "d")...)
+			evs = append(evs, osw.FaultEvents(w, world.CtrlObjectDeployment, odName, []world.FaultKind{world.ErrBefore, world.LostResponse, world.Crash})...)
+			evs = append(evs, osw.ConflictEvents(w, world.CtrlObjectDeployment, odName)...)
 			if w.Budget["stale"] > 0 {
 				// the one staleness the code handles: the List does not yet show an ObjectSet that a
 				// preceding deployment pass created and that nobody else has observed since
-				for _, k := range osw.ObjectSetsOf(w.S, "d") {
+				for _, k := range osw.ObjectSetsOf(w.S, odName) {
 					if w.Budget["fresh:"+k.Name] == 0 {
 						continue
 					}
 					k := k
 					evs = append(evs, world.Event{Name: "reconcile-stale:od:d (List misses " + k.Name + ")", Apply: func(w *world.World) *world.Pass {
 						w.Budget["stale"]--
-						p := w.Reconcile(world.CtrlObjectDeployment, osw.NN("d"), &world.Plan{HideInList: []kmodel.Key{k}})
+						p := w.Reconcile(world.CtrlObjectDeployment, osw.NN(odName), &world.Plan{HideInList: []kmodel.Key{k}})
 						markFresh(w, p)
 						return p
 					}})
 				}
 			}
 			if w.Budget["user-pause"] > 0 {
-				od := w.S.Objs[osw.ODKey("d")]
+				od := w.S.Objs[osw.ODKey(odName)]
 				p := podPaused(od.Content)
 				evs = append(evs, world.Event{Name: fmt.Sprintf("user:set-paused:%v", !p), Apply: func(w *world.World) *world.Pass {
 					w.Budget["user-pause"]--
-					osw.SetODPaused(w, "d", !p)
+					osw.SetODPaused(w, odName, !p)
 					return nil
 				}})
 			}
@@ -430,6 +445,7 @@ func scenarios(quick bool) []scenario {
 		{Edits: 1, Clash: "foreign", Faults: 1},
 		{Edits: 2, Conflicts: 1},
 		{Edits: 1, Pause: 2},
+		{Edits: 2, LongName: true},
 	}
 	if !quick {
 		out = append(out, scenario{Edits: 3, Faults: 1, Stale: 1}, scenario{Edits: 3, Pause: 2}, scenario{Edits: 2, Faults: 2}, scenario{Edits: 2, Conflicts: 2, Stale: 1}, scenario{Edits: 2, Clash: "archived", Faults: 1, Stale: 1})
@@ -439,7 +455,7 @@ func scenarios(quick bool) []scenario {
 
 func run(o checks.Opts) *report.Report {
 	rep := report.New("C07", "bfs")
-	rep.Rule = "explicit-state BFS: ObjectDeployment d with templates T1{a,b}, T2{a,c}, E(no phases); events = user edits between templates (incl. reverting), reconcile(ObjectDeployment) and reconcile(each ObjectSet) in any order, every fault kind (error before effect, lost response, crash) at every request of the deployment's pass, another actor's write landing before each write of the pass (update conflict), a deployment pass whose List misses the most recently created ObjectSet, pause/unpause, pre-seeded name clashes (archived / different spec / foreign controller); monitor on every deployment pass + state invariant on revision numbers"
+	rep.Rule = "explicit-state BFS: ObjectDeployment d with templates T1{a,b}, T2{a,c}, E(no phases); events = user edits between templates (incl. reverting), reconcile(ObjectDeployment) and reconcile(each ObjectSet) in any order, every fault kind (error before effect, lost response, crash) at every request of the deployment's pass, another actor's write landing before each write of the pass (update conflict), a deployment pass whose List misses the most recently created ObjectSet, pause/unpause, pre-seeded name clashes (archived / different spec / foreign controller), one system whose deployment name is 63 characters long; monitor on every deployment pass + state invariant on revision numbers"
 	scs := scenarios(o.Quick())
 	rep.Bounds["systems"] = len(scs)
 	for i, sc := range scs {
@@ -487,9 +503,9 @@ func init() {
 		},
 		Subs: []*checks.Sub{{Name: "bfs", Shards: func(t string) int {
 			if t == "thorough" {
-				return 12
+				return 13
 			}
-			return 7
+			return 8
 		}, Run: run, Replay: replay, Parallel: true},
 			{Name: "histories", Shards: func(string) int { return 8 }, Run: runHistories, Replay: replayHistory},
 			twin.Sub("C07", twinScenarios)},
